@@ -29,10 +29,16 @@ type c41Case struct {
 
 var c41RuleNames = map[string]string{"": "plain.test", "A+": "aplus.test", "A": "a.test", "B": "b.test", "C": "c.test", "C+chacha": "chacha.test", "A+chacha": "other.test"}
 
-var alpnLists = [][]string{nil, {"h2", "http/1.1"}, {"http/1.1"}, {"h2"}, {"spdy/3.1", "http/1.1"}, {"h2", "spdy/3.1"}, {"foo"}}
+// alpnLists: the first srvAlpnN are drawn for servers (global list and rule lists) and clients, the
+// rest for clients only: protocols no server list has, alone and before / between / after h2 and
+// http/1.1 (the server's re-selection after withdrawing h2 must not pick what only the client named).
+var alpnLists = [][]string{nil, {"h2", "http/1.1"}, {"http/1.1"}, {"h2"}, {"spdy/3.1", "http/1.1"}, {"h2", "spdy/3.1"},
+	{"foo"}, {"acme-proto", "h2"}, {"acme-proto", "h2", "http/1.1"}, {"h2", "acme-proto"}, {"http/1.1", "acme-proto", "h2"}, {"acme-proto", "spdy/3.1", "h2"}}
+
+const srvAlpnN = 6
 
 func c41Rules(g *vkit.Rand) map[string]ruleSpec {
-	np := func() []string { return alpnLists[g.Intn(len(alpnLists)-1)] }
+	np := func() []string { return alpnLists[g.Intn(srvAlpnN)] }
 	return map[string]ruleSpec{
 		"aplus.test":  {Grade: "A+", NextProtos: np()},
 		"a.test":      {Grade: "A", NextProtos: np()},
@@ -88,7 +94,7 @@ func c41Gen(g *vkit.Rand, cert string, sv, cv [2]uint16, rule string) c41Case {
 	s.Cert = cert
 	s.MinV, s.MaxV = sv[0], sv[1]
 	s.Rules = c41Rules(g)
-	s.NextProtos = alpnLists[g.Intn(len(alpnLists)-1)]
+	s.NextProtos = alpnLists[g.Intn(srvAlpnN)]
 	switch g.Intn(8) {
 	case 0, 1:
 		s.Suites = nil
@@ -584,7 +590,7 @@ func c41ScsvCases() []c41Case {
 }
 
 func c41(r *vkit.Run) {
-	r.SetRule("rawnego: the same server axes x client_version{ssl3,1.0,1.1,1.2} with hand-written ClientHellos (ServerHello parameters only). nego: full product cert{rsa,ecdsa} x 10 server [min,max] ranges (0 = default) x 9 client ranges (TLS1.0..1.3) x 7 rules (none, A+, A, B, C, C+chacha, A+chacha) with N seeded draws per cell of server suite list/order/PreferServer/priorities/curves/ALPN/tickets and client suite subset/curves/ALPN/verification/resumption; model computed from the two configurations alone (server ranges with min>max excluded; success required only where the model is exact); 64 KiB each way. xrule: full product 7x7 ordered rule pairs (first connection's rule -> second connection's rule, diagonal = control) x rule selection {SNI->SNI, SNI->default(no SNI), default->SNI, same name with the rule replaced} x {ticket via standard client (completed handshakes, 2 KiB each way), ticket in a hand-written ClientHello, session id in a hand-written ClientHello (ServerHello flight only)} x suite family the first handshake is steered to {chacha20, RC4, other; only families the first rule enables, chacha20 and RC4 drawn twice} with N seeded draws of certificate type, versions, suite lists/order, curves, ALPN; the second connection offers the first one's session and is judged by the same model computed for the second connection's rule, resumed or not. alpn: full product of 13 connection classes (std client: TLS1.0, TLS1.1, TLS1.2 with static-RSA-CBC / 3DES / RC4 / ECDHE-CBC suites [all black-listed for HTTP/2 by RFC 7540 App. A], TLS1.2 with ECDHE-GCM, with ECDHE-chacha20 [eligible]; hand-written hellos: SSLv3, TLS1.0, TLS1.1, TLS1.2 black-listed, TLS1.2 eligible; quick: one seeded concrete certificate/suite of the class per cell, thorough: every suite of the table x 3 draws) x 6 server lists ({h2}, {h2,http/1.1}, {http/1.1,h2}, {h2,spdy/3.1,http/1.1}, {spdy/3.1,h2}, {http/1.1}; placed in the rule matched by the SNI or in the global list, the other list being a decoy; quick: seeded placement, thorough: both) x 16 client lists (protocols unknown to the server in first / middle / last position or absent; h2 the only common protocol, h2 before / after another common protocol, nothing common), 1/3 of the std cases with a second, resumed connection; judged by the common model plus: the protocol in the ServerHello is in the client's list and in the server's list in force for this connection (rule list if a rule matches, else global), h2 only at TLS1.2 on a suite not black-listed (also applied to every other driver's ServerHello); that the server must select when something is common is NOT demanded (outcomes counted). scsv: exhaustive product cert x 8 server ranges x 5 rules x client_version{ssl3,1.0,1.1,1.2} x {no session, valid ticket, valid session id} x SCSV{first,last,absent}. Non-trivial = nego: handshake completed; xrule: session established and second connection attempted; scsv: SCSV present and client_version below the server's highest version. Distinct = canonical string of both configurations")
+	r.SetRule("rawnego: the same server axes x client_version{ssl3,1.0,1.1,1.2} with hand-written ClientHellos (ServerHello parameters only). nego: full product cert{rsa,ecdsa} x 10 server [min,max] ranges (0 = default) x 9 client ranges (TLS1.0..1.3) x 7 rules (none, A+, A, B, C, C+chacha, A+chacha) with N seeded draws per cell of server suite list/order/PreferServer/priorities/curves/ALPN/tickets and client suite subset/curves/ALPN (12 lists, 5 of them naming a protocol no server list has, before / between / after h2 and http/1.1; also in xrule)/verification/resumption; model computed from the two configurations alone (server ranges with min>max excluded; success required only where the model is exact); 64 KiB each way. xrule: full product 7x7 ordered rule pairs (first connection's rule -> second connection's rule, diagonal = control) x rule selection {SNI->SNI, SNI->default(no SNI), default->SNI, same name with the rule replaced} x {ticket via standard client (completed handshakes, 2 KiB each way), ticket in a hand-written ClientHello, session id in a hand-written ClientHello (ServerHello flight only)} x suite family the first handshake is steered to {chacha20, RC4, other; only families the first rule enables, chacha20 and RC4 drawn twice} with N seeded draws of certificate type, versions, suite lists/order, curves, ALPN; the second connection offers the first one's session and is judged by the same model computed for the second connection's rule, resumed or not. alpn: full product of 13 connection classes (std client: TLS1.0, TLS1.1, TLS1.2 with static-RSA-CBC / 3DES / RC4 / ECDHE-CBC suites [all black-listed for HTTP/2 by RFC 7540 App. A], TLS1.2 with ECDHE-GCM, with ECDHE-chacha20 [eligible]; hand-written hellos: SSLv3, TLS1.0, TLS1.1, TLS1.2 black-listed, TLS1.2 eligible; quick: one seeded concrete certificate/suite of the class per cell, thorough: every suite of the table x 3 draws) x 6 server lists ({h2}, {h2,http/1.1}, {http/1.1,h2}, {h2,spdy/3.1,http/1.1}, {spdy/3.1,h2}, {http/1.1}; placed in the rule matched by the SNI or in the global list, the other list being a decoy; quick: seeded placement, thorough: both) x 16 client lists (protocols unknown to the server in first / middle / last position or absent; h2 the only common protocol, h2 before / after another common protocol, nothing common), 1/3 of the std cases with a second, resumed connection; judged by the common model plus: the protocol in the ServerHello is in the client's list and in the server's list in force for this connection (rule list if a rule matches, else global), h2 only at TLS1.2 on a suite not black-listed (also applied to every other driver's ServerHello); that the server must select when something is common is NOT demanded (outcomes counted). scsv: exhaustive product cert x 8 server ranges x 5 rules x client_version{ssl3,1.0,1.1,1.2} x {no session, valid ticket, valid session id} x SCSV{first,last,absent}. Non-trivial = nego: handshake completed; xrule: session established and second connection attempted; scsv: SCSV present and client_version below the server's highest version. Distinct = canonical string of both configurations")
 	getPKI()
 	if r.Replay != "" {
 		var w struct {
